@@ -8,6 +8,7 @@ REGISTRY = {
     'C08': ['thread_pool'],
     'C09': ['when'],
     'C10': ['any'],
+    'C11': ['wait', 'event', 'base_core'],
     'C12': ['core', 'handles'],
     'C16': ['event', 'base_core'],
     'C19': ['atomic'],
@@ -103,6 +104,17 @@ CLAIMS = {
         'note': 'SC atomics; inputs are consumed exactly once each (C09 contract) is the rely; Promise::Set is the C01 producer contract; '
                 'release of inputs (Retire) is C09.',
         'design': 'DESIGN.md 6 C10, 5.B, A.5',
+    },
+    'C11': {
+        'text': 'Counter accounting of detail::WaitRange with the futures\' completions as environment steps at every interaction with the event: '
+                'returns true only when every holder of the event callback has signalled and nothing was reset; returns false only after the timed '
+                'wait timed out and at least one callback was removed; at every return no future still holds the waiter\'s stack event; a blocking '
+                'wait is entered only while somebody has still to signal; plus the registration lambdas (unique: event callback, shared: own helper '
+                'callback k), WaitIterator fast paths and event sizing, the iterator range loop (unbounded count), WaitCore sizing, ResetImpl / '
+                'SetCallbackImpl (unit base_core), MutexEvent Wait/Set/Reset under a monitor invariant, AtomicCounter::SubEqual (unit event).',
+        'note': 'The generic `range` lambdas are abstracted by a contract in WaitRange and proved separately as far as they are extractable; virtual time '
+                'is the boolean "deadline passed"; std::condition_variable timed waits are trusted; SC atomics.',
+        'design': 'DESIGN.md 6 C11, A.7',
     },
     'C12': {
         'text': 'Lazy branch of detail::SetCallback proved to have no effect (zero SetInline / Loop / Submit / functor calls; only links the new '
